@@ -351,6 +351,7 @@ Apply(W, op) ==
    LET S == W.t IN
    CASE op.name = "add_child"       ->
             IF op.k = -1 THEN Refuse(S, AnyErr, "add:bad_kind")      \* kind= of an unsupported type (typed trees)
+            ELSE IF op.xid = -1 THEN Refuse(S, AnyErr, "add:bad_data_id")   \* data_id= of an unhashable type
             ELSE DoAdd(S, op.p, op.d, op.xid, op.k, op.pos, "add")
      [] op.name = "add_child_nid"   ->   \* add_child(data, node_id=<the node_id of existing node op.x>): node ids stay unique
             Refuse(S, AnyErr, "add:dup_node_id")
@@ -388,7 +389,8 @@ Apply(W, op) ==
                                        IF g.ok THEN DoRemove(S, g.ret, FALSE, FALSE, "del")
                                        ELSE Refuse(S, g.errs, "del:lookup")
      [] op.name = "sort_children"   -> DoSort(S, op.p, op.rank, op.rev, op.deep, "sort")
-     [] op.name = "set_data"        -> DoSetData(S, op.x, op.d, op.xid, op.wc, "set_data")
+     [] op.name = "set_data"        -> IF op.xid = -1 THEN Refuse(S, AnyErr, "set_data:bad_data_id")
+                                       ELSE DoSetData(S, op.x, op.d, op.xid, op.wc, "set_data")
      [] op.name = "rename"          -> IF op.isstr THEN DoSetData(S, op.x, op.d, 0, "none", "rename")
                                        ELSE Refuse(S, {"ValueError"}, "rename:nonstr")
      [] op.name = "set_meta"        -> DoSetMeta(S, op.x, op.key, op.val, "set_meta")
